@@ -300,6 +300,9 @@ def strat_comp(tier):
         "angles": st.tuples(_angle, _angle, _angle),
         "vec": st.tuples(_coord, _coord, _coord),
         "form": st.sampled_from(["tuple", "three_args", "array"]),
+        # a history of further rigid motions applied one after the other to the results
+        "chain": st.lists(st.one_of(st.tuples(st.just("rot"), _angle, _angle, _angle), st.tuples(st.just("tr"), _coord, _coord, _coord)).map(list),
+                          min_size=2, max_size=4),
     })
 
 
@@ -434,6 +437,28 @@ def run_comp(case):
     nested = any(m["k"] != "sphere" for m in mem)
     if nested:
         labels.append("nested")
+    # --- histories: rigid motions applied one after the other, starting from the original (which has already
+    # been rotated and translated once above) and from its translated copy
+    if not nested and case.get("chain"):
+        for start_name, start_obj, Lref in (("original", comp, L0.copy()), ("translated copy", tr, L0 + vec)):
+            cur = start_obj
+            for step, op in enumerate(case["chain"]):
+                if op[0] == "rot":
+                    cur = cur.rotated(op[1], op[2], op[3])
+                    c_ = Lref.mean(0)
+                    Lref = c_ + (Lref - c_) @ ref_rotation(op[1], op[2], op[3]).T
+                else:
+                    v_ = np.array(op[1:], dtype=float)
+                    cur = cur.translated(tuple(v_))
+                    Lref = Lref + v_
+                Lc = np.array(leaf_centers(cur))
+                sc_ = max(scl, np.max(np.abs(Lref)))
+                if Lc.shape != Lref.shape or np.max(np.abs(Lc - Lref)) > 1e-10 * sc_:
+                    return Outcome(failure("history_rigid_motion", "after %d further step(s) (%s) from the %s the members are off by %.3g from the composed rigid motion"
+                                           % (step + 1, "/".join(o[0] for o in case["chain"][:step + 1]), start_name, np.max(np.abs(Lc - Lref))), top=top), True, labels)
+            if fingerprint(comp) != fp0:
+                return Outcome(failure("mutated_input", "a chain of rotated()/translated() modified the original", op="chain"), True, labels)
+        labels.append("history")
     return Outcome(None, len(L0) >= 2 and abs(math.sin(be)) > 1e-3, labels)
 
 
